@@ -210,7 +210,7 @@ def parse_behaviour_text(text):
                 cur_hdr = None
                 cur = []
                 continue
-            if line.startswith("----"):
+            if line.startswith("----") or line.startswith("\\*"):
                 continue
             cur.append(line)
     flush()
